@@ -203,6 +203,7 @@ fn main() {
             }
         }
     }
+    ezpz_verif_harness::oracle::print_signature_counts(&out);
     let mut seen = std::collections::BTreeSet::new();
     for v in &out {
         if seen.insert(v.signature.clone()) {
